@@ -735,6 +735,24 @@ class Model(object):
             p, data_i, mcdata_i, weight, mc_weight
         )
 
+    def _grad_hessp_from_hessian(self, p, data, mcdata, weight, mc_weight):
+        """
+        Gradient and Hessian-vector product of the NLL of this model from its
+        full Hessian, for likelihoods without a dedicated product.
+        """
+        data, mcdata = list(data), list(mcdata)
+        weight, mc_weight = list(weight), list(mc_weight)
+        batch = max(data_shape(i) for i in data + mcdata)
+        _, g, h = self.nll_grad_hessian(
+            data_merge(*data),
+            data_merge(*mcdata),
+            weight=tf.concat(weight, axis=0),
+            batch=batch,
+            mc_weight=tf.concat(mc_weight, axis=0),
+        )
+        h = tf.convert_to_tensor(h)
+        return g, tf.linalg.matvec(h, tf.cast(p, h.dtype))
+
     # @tf.function
     def nll_grad_batch(self, data, mcdata, weight, mc_weight):
         """
